@@ -40,6 +40,10 @@ def verify_functions(rep: core.Report, module_names, quals, classes, prop=None, 
             rep.undecided.append(f"{q}: left the modelled subset: {e}")
             rep.functions[q] = {"file": c.file, "status": "undecided", "reason": str(e)}
             continue
+        except Exception as e:  # the sidecar contract refers to names/shapes the current source no longer has
+            rep.undecided.append(f"{q}: contract could not be evaluated against the current source ({type(e).__name__}: {e})")
+            rep.functions[q] = {"file": c.file, "status": "undecided", "reason": f"{type(e).__name__}: {e}"}
+            continue
         info["gen_secs"] = round(time.time() - t0, 2)
         info["obligations"] = len(ex.obligations)
         info["inlined_callees"] = sorted(ex.inlined)
